@@ -61,6 +61,44 @@ def openFrame {V : Type} (kind : Kind) (cur : Option (List (String × V))) (ps :
   | .disabled => some (insertAll (cur.getD []) [])
   | .current => some (insertAll (cur.getD []) [])
 
+/-- How a forwarding `Ctxt` wrapper (`&C`, `Box<C>`, `Arc<C>`, `Option<C>`, `dyn ErasedCtxt`, `AssertInternal<C>`,
+    the ambient slot's erased ctxt) implements an `open_*` method: by calling the inner ctxt's method of the same
+    name, or not at all, so that the trait default applies (core/src/ctxt.rs:39-52):
+    `open_push(props) = with_current(|cur| open_root(props.and_props(cur)))`,
+    `open_disabled(props) = open_push(Empty)`. `open_root`, `enter`, `exit`, `with_current` have no default. -/
+inductive Via where
+  | forward | traitDefault
+  deriving Repr, DecidableEq
+
+structure Wrapper where
+  push : Via
+  disabled : Via
+  deriving Repr, DecidableEq
+
+/-- core/src/ctxt.rs:85-228, 505-543 (`&C`, `Option`, `Box`, `Arc`, `dyn ErasedCtxt`): every method forwarded -/
+def Wrapper.forwarding : Wrapper := ⟨.forward, .forward⟩
+/-- core/src/runtime.rs `impl Ctxt for AssertInternal<T>`: `open_disabled` is left to the trait default -/
+def Wrapper.assertInternal : Wrapper := ⟨.forward, .traitDefault⟩
+
+/-- `open_push` as the wrapper has it, over an inner `ThreadLocalCtxt` -/
+def pushVia {V : Type} (w : Wrapper) (cur : Option (List (String × V))) (ps : List (String × V)) :
+    Option (List (String × V)) :=
+  match w.push with
+  | .forward => openFrame .push cur ps
+  | .traitDefault => openFrame .root cur (ps ++ cur.getD [])
+
+/-- `Frame::<kind>(wrapper(ctxt), props)` -/
+def openVia {V : Type} (w : Wrapper) (kind : Kind) (cur : Option (List (String × V))) (ps : List (String × V)) :
+    Option (List (String × V)) :=
+  match kind with
+  | .root => openFrame .root cur ps
+  | .push => pushVia w cur ps
+  | .current => pushVia w cur []
+  | .disabled =>
+    match w.disabled with
+    | .forward => openFrame .disabled cur ps
+    | .traitDefault => pushVia w cur []
+
 /-- `ErasedFrame`: a frame value stored inline (≤ 16 bytes, align ≤ 8) or boxed. core/src/ctxt.rs:358-450 -/
 inductive Erased (α : Type) where
   | inline (a : α)
